@@ -129,6 +129,46 @@ func c02Streams(c *Ctx) {
 		c.R.Unknown(rule, rule+"/anchor:CipherWriter.fields", "-", "fields do not resolve")
 		return
 	}
+	// constructors: whatever the wrapped stream is (another cipher wrapper, anything), the new
+	// wrapper works on exactly that stream with exactly the given key from position 0
+	for _, ctor := range []struct {
+		name       string
+		rI, mI, pI int
+	}{{"NewCipherReader", L.crR, L.crMask, L.crPos}, {"NewCipherWriter", wW, wMask, wPos}} {
+		f := c.fn(rule, wsutil, ctor.name)
+		if f == nil {
+			continue
+		}
+		m := c.machine()
+		var problems []string
+		paths := m.Explore(f, func(mm *fold.Machine) []fold.Val {
+			return []fold.Val{fold.Iface{V: fold.Sym{Name: "stream", NonNil: true}}, maskLanes()}
+		}, func(mm *fold.Machine, p *fold.Path) {
+			r, ok := p.Ret.(fold.Ref)
+			if !ok {
+				problems = append(problems, ctor.name+" does not return a new object: "+fold.Show(p.Ret))
+				return
+			}
+			s, _ := mm.Load(r).(fold.Struct)
+			if len(s.F) <= ctor.pI {
+				problems = append(problems, ctor.name+": unexpected result shape")
+				return
+			}
+			key := "?"
+			if a, ok := s.F[ctor.mI].(fold.Arr); ok {
+				key = strings.Join(laneNamesPlain(a.E), "")
+			}
+			if nameOf(s.F[ctor.rI]) != "stream" || key != "m0m1m2m3" || fold.Show(s.F[ctor.pI]) != "0" {
+				problems = append(problems, fmt.Sprintf("%s(stream, mask) wraps %s with key %s at position %s [%s]: a wrapper that looks into the stream it is given (e.g. merges with another cipher wrapper) ignores that one's running position", ctor.name, nameOf(s.F[ctor.rI]), key, fold.Show(s.F[ctor.pI]), p.ChoiceString()))
+			}
+		})
+		for _, p := range paths {
+			if p.Abort != "" || p.Panic {
+				problems = append(problems, "undecided: "+p.Abort+panicNote(p))
+			}
+		}
+		c.verdict(rule, rule+"/"+ctor.name, c.P.FuncPos(f), uniq(problems), "wraps the given stream with the given key at position 0")
+	}
 	// Read
 	if f := c.method(rule, wsutil, "CipherReader", "Read"); f != nil {
 		m := c.machine()
@@ -349,81 +389,91 @@ func c02Frames(c *Ctx) {
 		m := c.machine()
 		addWriterLeafModels(m)
 		var problems []string
-		paths := m.Explore(f, func(mm *fold.Machine) []fold.Val {
-			hmask := fold.Arr{E: []fold.Val{fold.K(0), fold.K(0), fold.K(0), fold.K(0)}}
-			masked := false
-			if sp.unmask {
-				hmask = fold.Arr{E: []fold.Val{fold.Int{Lo: 0, Hi: 255, Name: "h0"}, fold.Int{Lo: 0, Hi: 255, Name: "h1"}, fold.Int{Lo: 0, Hi: 255, Name: "h2"}, fold.Int{Lo: 0, Hi: 255, Name: "h3"}}}
-				masked = true
+		var paths []*fold.Path
+		for _, premasked := range []bool{false, true} {
+			premasked := premasked
+			if sp.unmask && premasked {
+				continue
 			}
-			h := headerVal(true, 0, 2, masked, hmask, fold.Int{Lo: 0, Hi: bigLen(), Name: "Length"})
-			fr := fold.Struct{F: []fold.Val{h, fold.SymSeq{Name: "payload", Len: fold.Int{Lo: 0, Hi: 1 << 30, Name: "len(payload)"}}}}
-			if sp.withMask {
-				return []fold.Val{fr, maskLanes()}
-			}
-			return []fold.Val{fr}
-		}, func(mm *fold.Machine, p *fold.Path) {
-			fr, _ := p.Ret.(fold.Struct)
-			if len(fr.F) != 2 {
-				problems = append(problems, "result is not a frame")
-				return
-			}
-			h, _ := fr.F[0].(fold.Struct)
-			cp := p.Calls("Cipher")
-			if len(cp) != 1 || fold.Show(cp[0].Args[2]) != "0" {
-				problems = append(problems, fmt.Sprintf("payload is ciphered %d times (must be once, at offset 0)", len(cp)))
-				return
-			}
-			key := ""
-			if a, ok := cp[0].Args[1].(fold.Arr); ok {
-				key = strings.Join(laneNamesPlain(a.E), "")
-			}
-			hm := ""
-			if a, ok := h.F[4].(fold.Arr); ok {
-				hm = strings.Join(laneNamesPlain(a.E), "")
-			}
-			switch {
-			case sp.unmask:
-				if key != "h0h1h2h3" {
-					problems = append(problems, "unmasks with key "+key+" instead of the header's mask as it was before being cleared")
+			// premasked: a frame that already carries a key (taken from the wire) is masked again:
+			// the payload is ciphered once, with the new key
+			ps := m.Explore(f, func(mm *fold.Machine) []fold.Val {
+				hmask := fold.Arr{E: []fold.Val{fold.K(0), fold.K(0), fold.K(0), fold.K(0)}}
+				masked := false
+				if sp.unmask || premasked {
+					hmask = fold.Arr{E: []fold.Val{fold.Int{Lo: 0, Hi: 255, Name: "h0"}, fold.Int{Lo: 0, Hi: 255, Name: "h1"}, fold.Int{Lo: 0, Hi: 255, Name: "h2"}, fold.Int{Lo: 0, Hi: 255, Name: "h3"}}}
+					masked = true
 				}
-				if fold.Show(h.F[3]) != "false" || hm != "0000" {
-					problems = append(problems, "result header still says Masked="+fold.Show(h.F[3])+" Mask="+hm)
+				h := headerVal(true, 0, 2, masked, hmask, fold.Int{Lo: 0, Hi: bigLen(), Name: "Length"})
+				fr := fold.Struct{F: []fold.Val{h, fold.SymSeq{Name: "payload", Len: fold.Int{Lo: 0, Hi: 1 << 30, Name: "len(payload)"}}}}
+				if sp.withMask {
+					return []fold.Val{fr, maskLanes()}
 				}
-			case sp.withMask:
-				if key != "m0m1m2m3" || hm != "m0m1m2m3" || fold.Show(h.F[3]) != "true" {
-					problems = append(problems, fmt.Sprintf("masked with %s, header Mask=%s Masked=%s: all three must be the given mask", key, hm, fold.Show(h.F[3])))
+				return []fold.Val{fr}
+			}, func(mm *fold.Machine, p *fold.Path) {
+				fr, _ := p.Ret.(fold.Struct)
+				if len(fr.F) != 2 {
+					problems = append(problems, "result is not a frame")
+					return
 				}
-			default:
-				if key != "k0k1k2k3" || hm != "k0k1k2k3" || fold.Show(h.F[3]) != "true" {
-					problems = append(problems, fmt.Sprintf("masked with %s, header Mask=%s Masked=%s: all three must be the fresh key", key, hm, fold.Show(h.F[3])))
+				h, _ := fr.F[0].(fold.Struct)
+				cp := p.Calls("Cipher")
+				if len(cp) != 1 || fold.Show(cp[0].Args[2]) != "0" {
+					problems = append(problems, fmt.Sprintf("payload is ciphered %d times (must be once, at offset 0)", len(cp)))
+					return
 				}
-			}
-			arg := fold.Show(cp[0].Args[0])
-			if sp.copyP {
-				if arg == "payload" || strings.HasPrefix(arg, "payload[") {
-					problems = append(problems, "the copying variant ciphers the caller's payload in place")
+				key := ""
+				if a, ok := cp[0].Args[1].(fold.Arr); ok {
+					key = strings.Join(laneNamesPlain(a.E), "")
 				}
-				okCopy := false
-				for _, e := range p.Effects {
-					if e.Kind == "copy" && fold.Show(e.Args[0]) == arg && fold.Show(e.Args[1]) == "payload" {
-						okCopy = true
+				hm := ""
+				if a, ok := h.F[4].(fold.Arr); ok {
+					hm = strings.Join(laneNamesPlain(a.E), "")
+				}
+				switch {
+				case sp.unmask:
+					if key != "h0h1h2h3" {
+						problems = append(problems, "unmasks with key "+key+" instead of the header's mask as it was before being cleared")
+					}
+					if fold.Show(h.F[3]) != "false" || hm != "0000" {
+						problems = append(problems, "result header still says Masked="+fold.Show(h.F[3])+" Mask="+hm)
+					}
+				case sp.withMask:
+					if key != "m0m1m2m3" || hm != "m0m1m2m3" || fold.Show(h.F[3]) != "true" {
+						problems = append(problems, fmt.Sprintf("masked with %s, header Mask=%s Masked=%s: all three must be the given mask", key, hm, fold.Show(h.F[3])))
+					}
+				default:
+					if key != "k0k1k2k3" || hm != "k0k1k2k3" || fold.Show(h.F[3]) != "true" {
+						problems = append(problems, fmt.Sprintf("masked with %s, header Mask=%s Masked=%s: all three must be the fresh key", key, hm, fold.Show(h.F[3])))
 					}
 				}
-				al := fold.LenOf(cp[0].Args[0])
-				if !okCopy || al.Name != "len(payload)" {
-					problems = append(problems, "the ciphered buffer is not a full copy of the payload")
+				arg := fold.Show(cp[0].Args[0])
+				if sp.copyP {
+					if arg == "payload" || strings.HasPrefix(arg, "payload[") {
+						problems = append(problems, "the copying variant ciphers the caller's payload in place")
+					}
+					okCopy := false
+					for _, e := range p.Effects {
+						if e.Kind == "copy" && fold.Show(e.Args[0]) == arg && fold.Show(e.Args[1]) == "payload" {
+							okCopy = true
+						}
+					}
+					al := fold.LenOf(cp[0].Args[0])
+					if !okCopy || al.Name != "len(payload)" {
+						problems = append(problems, "the ciphered buffer is not a full copy of the payload")
+					}
+				} else if arg != "payload" {
+					problems = append(problems, "the in-place variant ciphers "+arg)
 				}
-			} else if arg != "payload" {
-				problems = append(problems, "the in-place variant ciphers "+arg)
-			}
-			if fold.Show(fr.F[1]) != arg {
-				problems = append(problems, "the returned payload is not the ciphered buffer")
-			}
-			if intName(h.F[5]) != "Length" || fold.Show(h.F[0]) != "true" || fold.Show(h.F[2]) != "2" {
-				problems = append(problems, "other header fields changed")
-			}
-		})
+				if fold.Show(fr.F[1]) != arg {
+					problems = append(problems, "the returned payload is not the ciphered buffer")
+				}
+				if intName(h.F[5]) != "Length" || fold.Show(h.F[0]) != "true" || fold.Show(h.F[2]) != "2" {
+					problems = append(problems, "other header fields changed")
+				}
+			})
+			paths = append(paths, ps...)
+		}
 		for _, p := range paths {
 			if p.Abort != "" || p.Panic {
 				problems = append(problems, "undecided: "+p.Abort+panicNote(p))
@@ -433,6 +483,7 @@ func c02Frames(c *Ctx) {
 			// the copy is promised whatever the header says: an unmasked frame given to UnmaskFrame,
 			// a frame with a zero key, an already masked frame given to MaskFrame
 			for _, variant := range []string{"flag-inverted", "zero-key"} {
+
 				variant := variant
 				m2 := c.machine()
 				addWriterLeafModels(m2)
